@@ -548,6 +548,35 @@ def _ident(rng, used, reserved):
             return n
 
 
+
+def _err_suffix(rng):
+    """errorcode / errorlevel in all four presence combinations (codes: strings and integers; levels: integers)"""
+    code = rng.choice(['"c%d"' % rng.randint(1, 9), '"low level"', str(rng.randint(1, 99))])
+    level = str(rng.randint(0, 9))
+    return rng.choice(['', ' errorcode ' + code, ' errorlevel ' + level, ' errorcode %s errorlevel %s' % (code, level)])
+
+
+def gen_dp_ruleset(rng):
+    rules = []
+    for i in range(rng.randint(1, 4)):
+        body = rng.choice(['Me_1 >= 0', 'when Me_1 > 0 then Me_2 >= 0', 'Me_1 < 1000', 'when Me_2 > 3 then Me_1 <> 1', 'Me_1 + Me_2 > 0'])
+        rules.append(body + _err_suffix(rng))
+    if rng.random() < 0.5:
+        rules = ['r%d: %s' % (i + 1, r) for i, r in enumerate(rules)]
+    return ('variable', 'define datapoint ruleset {n} (variable Me_1, Me_2) is\n  %s\nend datapoint ruleset;' % ';\n  '.join(rules))
+
+
+def gen_hr_ruleset(rng):
+    rules = []
+    pool = ['A = B + C', 'D >= B', 'E = B - C', 'F > C', 'G = B + C - B', 'H <= C']      # left sides never feed another rule (no cycles)
+    rng.shuffle(pool)
+    for i in range(rng.randint(1, 4)):
+        rules.append(pool[i] + _err_suffix(rng))
+    if rng.random() < 0.5:
+        rules = ['r%d: %s' % (i + 1, r) for i, r in enumerate(rules)]
+    return ('variable', 'define hierarchical ruleset {n} (variable rule Id_2) is\n  %s\nend hierarchical ruleset;' % ';\n  '.join(rules))
+
+
 def gen_script(rng, reserved, viral=False):
     """-> dict(text, truth=[(kind, name, scope)] in SOURCE order, structures, datapoints)"""
     used = set()
@@ -558,10 +587,10 @@ def gen_script(rng, reserved, viral=False):
         w = rng.choice(['dp', 'hr', 'udo'])
         n = _ident(rng, used, reserved)
         if w == 'dp':
-            sc, t = rng.choice(DP_RULESETS); stmts.append(('D', n, sc, t.replace('{n}', n)))
+            sc, t = rng.choice(DP_RULESETS) if rng.random() < 0.5 else gen_dp_ruleset(rng); stmts.append(('D', n, sc, t.replace('{n}', n)))
             if sc == 'variable': dps.append(n)
         elif w == 'hr':
-            sc, t = rng.choice(HR_RULESETS); stmts.append(('H', n, sc, t.replace('{n}', n)))
+            sc, t = rng.choice(HR_RULESETS) if rng.random() < 0.5 else gen_hr_ruleset(rng); stmts.append(('H', n, sc, t.replace('{n}', n)))
             if sc == 'variable' and 'condition' not in t: hrs.append(n)
         else:
             k, t = rng.choice(UDOS); stmts.append(('U', n, None, t.replace('{n}', n))); udos.append((n, k))
